@@ -40,19 +40,44 @@ fn valid(ptrs: &[usize], base: usize, start: usize, len: usize, min_len: usize, 
 
 fn step(base: usize) {
     let total = base + N;
-    let mut ptrs: Vec<usize> = (0..total).collect();
-    let sym: [usize; N] = kani::any();
+    // an ARBITRARY valid cycle x[0] -> x[1] -> ... -> x[len-1] -> x[0] over the planes base..base+N with start = x[0], built through the
+    // public API only (init + outward extensions), so that the state is consistent whatever the internal representation is
+    let x: [usize; N] = kani::any();
+    let len: usize = kani::any();
+    kani::assume(len >= 3 && len <= N);
     let mut i = 0;
     while i < N {
-        kani::assume(sym[i] >= base && sym[i] < total);
-        ptrs[base + i] = sym[i];
+        kani::assume(x[i] >= base && x[i] < total);
+        let mut j = 0;
+        while j < i {
+            kani::assume(x[j] != x[i]);
+            j += 1;
+        }
         i += 1;
     }
-    let start: usize = kani::any();
-    let len: usize = kani::any();
+    let start = x[0];
+    let mut cyc = SimpleCycle::new(total);
+    cyc.init(x[0], x[1], x[2]);
+    let mut m = 3;
+    while m < N {
+        if m < len {
+            // insert x[m] between x[m-1] and x[0]: a triangle sharing exactly the edge x[m-1] -> x[0]
+            let r = cyc.try_extend(x[m], x[0], x[m - 1]);
+            assert!(r.is_ok());
+        }
+        m += 1;
+    }
     let mut before = [0usize; N];
-    kani::assume(valid(&ptrs, base, start, len, 3, &mut before));
-    let mut cyc = SimpleCycle::vh_from_parts(ptrs, start, len);
+    assert!(cyc.len == len);
+    assert!(valid(cyc.vh_ptrs(), base, cyc.vh_start(), cyc.len, 3, &mut before));
+    assert!(cyc.vh_start() == start);
+    let mut k = 0;
+    while k < N {
+        if k < len {
+            assert!(before[k] == x[k]);
+        }
+        k += 1;
+    }
     let a: usize = kani::any();
     let b: usize = kani::any();
     let c: usize = kani::any();
